@@ -225,7 +225,9 @@ def layout(toks, rng, version, mode):
             elif k < 0.85:
                 sep = rng.choice(['  ', '\t', '\n', ' \n ', '\r\n'])
             elif version != '1.0':
-                sep = rng.choice([' (: c :) ', '(: x (: nested :) y :)', ' (::) ', '\n(: a\nb :)\n'])
+                pieces = [rng.choice([' (: c :) ', '(: x (: nested :) y :)', ' (::) ', '\n(: a\nb :)\n', '(: c :)'])
+                          for _ in range(rng.choice([1, 1, 2, 3]))]
+                sep = rng.choice(['', ' ', '\n', '  ']).join(pieces)
                 if not tight_ok:
                     sep = ' ' + sep + ' '
             else:
